@@ -52,3 +52,28 @@ NOTES["C03"] = dict(
           "(send messages compared keyed by peer). Open finding: node-aware package on a ragged last node (known_findings.json)."),
     technique="Lean 4 proof on a message-level model of the halo package; array-level correspondence with the real ParComm/TAPComm",
 )
+
+NOTES["C04"] = dict(
+    text=("Lean theorems: the node-aware forward exchange L || (S -> G -> R) (+ 2-step variant) is natural in the payload, so a package that routes "
+          "the identity payload to exactly the requested global indices (decidable certificate, incl. the shifted check that exposes "
+          "out-of-range indices) delivers every payload - scalars, blocks, sparse rows - exactly as the standard package proved in C03 "
+          "(tap_eq_standard). The certificate is evaluated on the four sub-packages dumped from real TAPComm objects of every configuration "
+          "run (np x PPN x ordering, 3-step/2-step, direct and derived by column filtering); every operation with a node-aware variant "
+          "(mat-vec, transpose mat-vec, residual, SpGEMM, transpose SpGEMM, AMG setup and solve, and via C03 the reverse and sparse-row "
+          "exchanges) is additionally run both ways and compared."),
+    note=("The construction code tap_comm.cpp is checked per dumped instance, not proved for all inputs; the reverse/sparse-row exchanges of the "
+          "node-aware package are covered differentially only. Open finding: ragged last node (PPN does not divide nprocs)."),
+    technique="Lean 4 proof of naturality/sufficiency + per-instance certificate checking of real packages + differential execution",
+)
+NOTES["C05"] = dict(
+    text=("Abstract MPI transition system in Lean (per-pair FIFO, wildcard match choice, synchronising collectives) with theorems about all "
+          "executions (see Props/C05.lean for the list proved at this commit); the C03 theorem exchangeT_order_indep / recv_matches_send give "
+          "arrival-order independence of packages and reductions. Tie to the code: a PMPI interposition layer forces wildcard match orders "
+          "(incl. every permutation per wildcard site for small np), delays sends and collective entries, arms a watchdog, and logs a trace; "
+          "results of package construction, exchanges, matrix operations, AMG setup/solve (RS and aggregation) and repartitioning are compared "
+          "across schedules, and every trace is validated: k-th send matches k-th receive per channel, nothing left unreceived, causality, and "
+          "every wildcard receive consumed a message of its own epoch."),
+    note=("Partial: the real MPI progress engine and eager/rendezvous behaviour are outside the model; the layer can only choose among messages "
+          "that have already arrived; traces are validated per run."),
+    technique="Lean 4 proof over an abstract MPI transition system + schedule-forcing PMPI layer with trace validation",
+)
